@@ -81,6 +81,20 @@ func runC11(src sim.Source, o Opts) *Result {
 			// one pattern registered under many verbs with long names (WebDAV/DeltaV style, without the hyphens fox's method check refuses): the Allow value for it, and
 			// for '*', runs to well over a hundred bytes
 			pi := src.Intn("manyverbspat", len(rr.pool))
+			if src.Intn("morethan64verbs", 3) == 2 {
+				// ... after 64 other custom verbs (three letters each) registered on a pattern of their own: the verbs that
+				// follow are the 69th and later of the router
+				pj := src.Intn("fillerverbspat", len(rr.pool))
+				for i := 0; i < 64 && !rr.skip; i++ {
+					rr.nextTag++
+					op := WOp{Kind: "handle", Method: "Q" + string(rune('A'+i/26)) + string(rune('A'+i%26)), Pat: pj, Tag: rr.nextTag}
+					want := applyModel(rr.set, rr.cfg, rr.pool, op)
+					if out := applyFox(rr.w, rr.w.R, rr.pool, op); !sameOut(out, want) {
+						rr.skip = true
+					}
+				}
+				res.inc("rounds_with_more_than_64_verbs")
+			}
 			for _, verb := range []string{"PROPFIND", "PROPPATCH", "MKCOL", "VERSIONCONTROL", "MKWORKSPACE", "BASELINECONTROL", "MKACTIVITY", "ORDERPATCH", "UNCHECKOUT", "REPORT", "UNLOCK", "LOCK", "PATCH"} /* the last three: names contained in names registered before them */ {
 				rr.nextTag++
 				op := WOp{Kind: "handle", Method: verb, Pat: pi, Tag: rr.nextTag, Opt: world.RouteOpt{TS: 1 + src.Intn("manyverbsts", 3)}}
